@@ -46,7 +46,7 @@ engine.use_repo()
 def gen_cases(tier, seed):
     rnd = random.Random(seed * 104729 + 202)
     n = 9000 if tier == "quick" else 150000
-    pats = ["ode", "ode", "split", "mono_time", "mono_limit", "target_power"]
+    pats = ["ode", "ode", "split", "mono_time", "mono_limit", "target_power", "history"]
     for i in range(n):
         positive = rnd.random() < 0.85
         bat = bc.gen_battery(rnd, positive=positive, allow_unlimited=False)
@@ -104,7 +104,36 @@ def soc_domain_time(fn, limit, kk, c, a, b, brk):
     return total
 
 
+def eval_history(case):
+    """the state of a battery is its SoC: a call after an opposite call on the SAME object (same limit) gives exactly
+    what the same call gives on a fresh battery started at that SoC (efficiencies incl. exactly 1, separate discharge
+    curves)"""
+    k, mp, ts, u1, u2 = case["k"], case["mp"], case["ts"], case["us1"], case["us2"]
+    opp = "U" if k == "L" else "L"
+    ops_a = [(opp, u2, mp, None, None), (k, u1, mp, ts, None)]
+    line_a = bc.proto_line(case, ops_a)
+    impl_a, recs_a, _ = bc.run_ops(case, ops_a)
+    lines, impls, viol, stats = [line_a], [impl_a], [], ["history"]
+    if len(recs_a) < 2 or any("error" in r for r in recs_a):
+        return {"lines": lines, "impl": impls, "violations": [], "nontrivial": False, "stats": stats + ["error_or_malformed"]}
+    fresh = dict(case, soc=recs_a[0]["after"])
+    ops_b = [(k, u1, mp, ts, None)]
+    lines.append(bc.proto_line(fresh, ops_b))
+    impl_b, recs_b, _ = bc.run_ops(fresh, ops_b)
+    impls.append(impl_b)
+    if recs_b and "error" not in recs_b[0]:
+        a, b = recs_a[1], recs_b[0]
+        if a["after"] != b["after"] or a["avg"] != b["avg"]:
+            viol.append(("state_is_soc", "C02:%s_depends_on_previous_call" % ("load" if k == "L" else "unload"),
+                         "after an opposite call: soc %r -> %r avg %r; fresh battery at the same SoC: -> %r avg %r"
+                         % (a["before"], a["after"], a["avg"], b["after"], b["avg"])))
+    moved = recs_a[0]["after"] != recs_a[0]["before"] and recs_a[1]["after"] != recs_a[1]["before"]
+    return {"lines": lines, "impl": impls, "violations": viol, "nontrivial": moved, "stats": stats}
+
+
 def eval_case(case):
+    if case["pat"] == "history":
+        return eval_history(case)
     runs = runs_of(case)
     lines, impls, allrecs = [], [], []
     for ops in runs:
@@ -286,4 +315,11 @@ def eval_case(case):
 
 
 def compare(case, impl, model):
+    if case["pat"] == "history":
+        if impl == model:
+            return None
+        k, mp, ts, u1, u2 = case["k"], case["mp"], case["ts"], case["us1"], case["us2"]
+        opp = "U" if k == "L" else "L"
+        return bc.compare_ops(case, [[(opp, u2, mp, None, None), (k, u1, mp, ts, None)], [(k, u1, mp, ts, None)]],
+                              impl, model)
     return bc.compare_ops(case, runs_of(case), impl, model)
